@@ -1325,7 +1325,7 @@ pub async fn exec_c04(script: Value) -> ExecResult {
             if let Some(missing) = catalogue_missing_log_file(&img, &prefix) {
                 sim::count("probe.image_catalogue_lists_missing_log", 1);
                 if findings.is_empty() {
-                    findings.push(Violation::new(&clause(id, "catalogue_lists_missing_log_file"), format!("{} - the catalogue on disk still lists {} which has already been unlinked; consequence: {}: {}", what, missing, v.clause, v.msg)));
+                    findings.push(Violation::new(&clause(id, "catalogue_out_of_step_with_log_files"), format!("{} - the catalogue on disk lists {}; consequence: {}: {}", what, missing, v.clause, v.msg)));
                 }
                 continue;
             }
@@ -1346,7 +1346,10 @@ pub async fn exec_c04(script: Value) -> ExecResult {
     ExecResult { violation, info }
 }
 
-/// Some(file name) when the catalogue stored in the image lists a log file that the image does not contain
+/// Some(description) when the catalogue stored in the image is out of step with the log files of the
+/// image: it lists a log file that does not exist, or one whose header carries another first index
+/// than the catalogue (the name was re-used for a new file). Files are removed / created by the log
+/// manager and its file actors while the catalogue is saved, fire-and-forget, by the index manager.
 fn catalogue_missing_log_file(img: &tokio::fs::Image, prefix: &str) -> Option<String> {
     use quick_protobuf::BytesReader;
     use rnacos::raft::filestore::log::RaftIndex;
@@ -1359,8 +1362,18 @@ fn catalogue_missing_log_file(img: &tokio::fs::Image, prefix: &str) -> Option<St
     let idx: RaftIndex = r.read_message(body).ok()?;
     for l in &idx.logs {
         let name = format!("{}log_{}", prefix, l.id);
-        if !img.names.contains_key(&name) {
-            return Some(format!("log_{}", l.id));
+        match img.file(&name) {
+            None => return Some(format!("log_{} which does not exist (already unlinked)", l.id)),
+            Some(f) => {
+                if f.len() >= 22 {
+                    let mut b = [0u8; 8];
+                    b.copy_from_slice(&f[14..22]);
+                    let first_index = u64::from_be_bytes(b);
+                    if first_index != l.start_index {
+                        return Some(format!("log_{} with start index {} but the file of that name is a newer one starting at {}", l.id, l.start_index, first_index));
+                    }
+                }
+            }
         }
     }
     None
